@@ -416,6 +416,30 @@ def reachable(ms):
     return out
 
 
+def unmangle(x):
+    """The spec a bound term had BEFORE alpha-mangling (names  foo__B -> foo)."""
+    if isinstance(x, str):
+        return x[:-3] if x.endswith("__B") else x
+    if isinstance(x, tuple):
+        return tuple(unmangle(y) for y in x)
+    if isinstance(x, frozenset):
+        return frozenset(unmangle(y) for y in x)
+    return x
+
+
+def retained(ms):
+    """Keys of all objects that MAY be alive: ``reachable`` plus the pre-mangling arguments of held bound terms.
+    (The cons-cache entry of a bound term is keyed by the arguments as written -- un-mangled sub-terms -- and a
+    WeakValueDictionary holds its keys strongly for as long as the value lives.)"""
+    out = reachable(ms)
+    for st in ms.status.values():
+        if st[0] == "H":
+            u = unmangle(st[1])
+            if u != st[1]:
+                out.update(nodes(u))
+    return out
+
+
 def pool_slots(pool):
     s = set()
     for r in pool:
